@@ -49,7 +49,141 @@ fn module(ctx: Arc<Ctx>) -> RpcModule<Arc<Ctx>> {
 		"x".repeat(12 << 20)
 	})
 	.unwrap();
+	// 3 MB: more than a duplex pipe of 1 MiB holds, quick to serialise
+	m.register_async_method("gated_mid", |p, ctx, _| async move {
+		let q: u64 = p.one().unwrap_or(0);
+		ctx.tracer.ev(json!({"ev": "HStart", "q": q}));
+		let gate = ctx.gates.lock().remove(&q);
+		if let Some(g) = gate {
+			let _ = g.await;
+		}
+		ctx.tracer.ev(json!({"ev": "HFinish", "q": q}));
+		"x".repeat(3 << 20)
+	})
+	.unwrap();
+	// a subscribe call: its answer is the response that accepts the subscription, handed to the connection by `accept`
+	m.register_subscription("gated_sub", "gated_notif", "gated_unsub", |p, pending, ctx, _| async move {
+		let q: u64 = p.one().unwrap_or(0);
+		ctx.tracer.ev(json!({"ev": "HStart", "q": q}));
+		let gate = ctx.gates.lock().remove(&q);
+		if let Some(g) = gate {
+			let _ = g.await;
+		}
+		ctx.tracer.ev(json!({"ev": "HFinish", "q": q}));
+		let _ = pending.accept().await;
+	})
+	.unwrap();
 	m
+}
+
+/// A subscribe call whose handler accepts after `stop()` while the connection's outbound side is saturated: a 3 MB answer
+/// blocks the writer on a peer that is not reading, a small answer fills the one buffer slot, the subscribe handler (call 6,
+/// started before the stop) then has to wait for room in `accept`.  The peer stays connected and reads on: every answer,
+/// the subscribe call's included, must arrive before the connection ends and `stopped()` resolves.
+async fn sub_pressure_scenario(sc: usize) -> Vec<Value> {
+	let tracer = Tracer::default();
+	let ctx = Arc::new(Ctx { tracer: tracer.clone(), gates: Mutex::new(HashMap::new()) });
+	let methods: jsonrpsee_server::Methods = module(ctx.clone()).into();
+	tracer.ev(json!({"ev": "Reset", "sc": sc, "limit": 10, "rig": "tower", "ping": false, "sub_pressure": true}));
+	let cfg = RigCfg { buf_cap: 1, max_conns: 10, max_resp: 64 << 20, ..Default::default() };
+	let rig = Rig::with_methods(cfg, Default::default(), methods);
+	let (stop, handle) = jsonrpsee_server::stop_channel();
+	let mut mode = Mode::Tower { rig, stop: Some(stop) };
+	let mut gate_tx: HashMap<u64, oneshot::Sender<()>> = HashMap::new();
+	for q in [1u64, 2, 6] {
+		let (tx, rx) = oneshot::channel();
+		ctx.gates.lock().insert(q, rx);
+		gate_tx.insert(q, tx);
+	}
+	let t2 = tracer.clone();
+	let h2 = handle.clone();
+	let watcher = tokio::spawn(async move {
+		h2.stopped().await;
+		t2.ev(json!({"ev": "StoppedResolved"}));
+	});
+	let done = |tracer: Tracer, handle| {
+		drop(handle);
+		tracer.ev(json!({"ev": "End"}));
+		tracer.take()
+	};
+	let Some(client_io) = mode.connect().await else { return done(tracer, handle) };
+	let mut client = soketto::handshake::Client::new(BufReader::new(BufWriter::new(client_io.compat())), "localhost", "/");
+	if !matches!(client.handshake().await, Ok(soketto::handshake::ServerResponse::Accepted { .. })) {
+		return done(tracer, handle);
+	}
+	tracer.ev(json!({"ev": "Open", "c": 1}));
+	let (mut tx, mut rx) = client.into_builder().finish();
+	let has = |t: &Tracer, ev: &str, q: u64| t.0.lock().iter().any(|e| e["ev"] == ev && e["q"] == q);
+	let wait_for = |ev: &'static str, q: u64| {
+		let t = tracer.clone();
+		async move {
+			for _ in 0..1000 {
+				if has(&t, ev, q) {
+					return;
+				}
+				tokio::time::sleep(Duration::from_millis(2)).await;
+			}
+		}
+	};
+	// the peer does not read; call 1 is answered with 3 MB (the writer blocks in the middle of it), call 2's answer fills the slot
+	for (q, method) in [(1u64, "gated_mid"), (2, "gated")] {
+		tracer.ev(json!({"ev": "PeerSend", "q": q}));
+		let _ = tx.send_text(format!(r#"{{"jsonrpc":"2.0","id":{q},"method":"{method}","params":[{q}]}}"#)).await;
+		let _ = tx.flush().await;
+		wait_for("HStart", q).await;
+		if let Some(g) = gate_tx.remove(&q) {
+			let _ = g.send(());
+		}
+		wait_for("HFinish", q).await;
+		// (time for the answer to be serialised, queued and - call 1 - taken by the writer, which then blocks on the full pipe)
+		tokio::time::sleep(Duration::from_millis(if q == 1 { 150 } else { 30 })).await;
+	}
+	// the subscribe call: its handler starts and parks at its gate; then the stop; then the handler goes on into `accept`
+	tracer.ev(json!({"ev": "PeerSend", "q": 6}));
+	let _ = tx.send_text(r#"{"jsonrpc":"2.0","id":6,"method":"gated_sub","params":[6]}"#).await;
+	let _ = tx.flush().await;
+	wait_for("HStart", 6).await;
+	tracer.ev(json!({"ev": "Stop"}));
+	let _ = handle.stop();
+	if let Mode::Tower { stop, .. } = &mut mode {
+		drop(stop.take());
+	}
+	tokio::time::sleep(Duration::from_millis(5)).await;
+	if let Some(g) = gate_tx.remove(&6) {
+		let _ = g.send(());
+	}
+	wait_for("HFinish", 6).await;
+	tokio::time::sleep(Duration::from_millis(30)).await;
+	// now the peer reads everything there is
+	let t3 = tracer.clone();
+	let reader = tokio::spawn(async move {
+		loop {
+			let mut data = Vec::new();
+			match rx.receive(&mut data).await {
+				Ok(soketto::Incoming::Data(_)) => {
+					let v: Value = serde_json::from_slice(&data).unwrap_or(Value::Null);
+					t3.ev(json!({"ev": "Recv", "q": v["id"]}));
+				}
+				Ok(soketto::Incoming::Pong(_)) => {}
+				Ok(soketto::Incoming::Closed(_)) => {
+					t3.ev(json!({"ev": "Eof", "c": 1}));
+					break;
+				}
+				Err(e) => {
+					t3.ev(json!({"ev": "Eof", "c": 1, "err": format!("{e:?}")}));
+					break;
+				}
+			}
+		}
+	});
+	if tokio::time::timeout(WAIT, reader).await.is_err() {
+		tracer.ev(json!({"ev": "Timeout", "what": "peer never saw EOF after stop"}));
+	}
+	if tokio::time::timeout(WAIT, watcher).await.is_err() {
+		tracer.ev(json!({"ev": "Timeout", "what": "stopped() did not resolve"}));
+	}
+	drop(tx);
+	done(tracer, handle)
 }
 
 pub fn run(nscen: usize, out_path: &str) {
@@ -61,7 +195,7 @@ pub fn run(nscen: usize, out_path: &str) {
 			continue;
 		}
 		let mut rng = rng_for(sc, 10);
-		let evs = rt.block_on(scenario(&mut rng, sc));
+		let evs = if sc % 12 == 7 { rt.block_on(sub_pressure_scenario(sc)) } else { rt.block_on(scenario(&mut rng, sc)) };
 		for e in evs {
 			outf.raw(&e);
 		}
